@@ -32,6 +32,9 @@ const (
 	// OpReimport exports the module genesis, empties the module store and imports the genesis
 	// again (what a chain restart from an exported genesis does to the module).
 	OpReimport = "reimport"
+	// OpFaultBlock is a block during which the FailAt-th bank transfer fails (fault injection). On
+	// correct code block processing reports the failure and the chain stops there.
+	OpFaultBlock = "faultBlock"
 )
 
 // Sched is one vesting schedule entry of a create message.
@@ -79,7 +82,8 @@ type Op struct {
 	Amount string `json:"amount,omitempty"`
 
 	// block
-	Time time.Time `json:"time,omitempty"`
+	Time   time.Time `json:"time,omitempty"`
+	FailAt int       `json:"fail_at,omitempty"` // faultBlock: index of the failing transfer
 
 	// updateParams
 	CreationFee    string `json:"creation_fee,omitempty"`
@@ -125,6 +129,8 @@ type Result struct {
 	OK    bool   // operation accepted (messages) / block hook returned nil
 	Err   string // error text when not OK
 	Panic string // recovered panic (with stack) when the implementation panicked
+	// FaultHit describes the transfer that an injected fault made fail (faultBlock only).
+	FaultHit string
 }
 
 func dec(s string) math.LegacyDec {
@@ -302,6 +308,18 @@ func (w *World) Apply(o Op) (res Result) {
 	switch o.Kind {
 	case OpBlock:
 		return w.applyBlock(o)
+	case OpFaultBlock:
+		bankFault = faultPlan{active: true, failAt: o.FailAt}
+		res = w.applyBlock(o)
+		hit := bankFault.hit
+		bankFault = faultPlan{}
+		if hit == "" && !res.OK {
+			return res
+		}
+		if hit != "" {
+			res.FaultHit = hit
+		}
+		return res
 	case OpAddAllowed:
 		cc, write := w.Ctx.CacheContext()
 		func() {
